@@ -203,6 +203,19 @@ func (h *Hosts) HasSSLPassthrough() bool {
 	return h.sslPassthroughCount > 0
 }
 
+// HasError404 returns true if a path of any host uses the internal
+// _error404 backend, see Host.addLink() and strict-host config.
+func (h *Hosts) HasError404() bool {
+	for _, host := range h.items {
+		for _, path := range host.Paths {
+			if path.Backend.ID == "_error404" {
+				return true
+			}
+		}
+	}
+	return false
+}
+
 // HasVarNamespace ...
 func (h *Hosts) HasVarNamespace() bool {
 	for _, host := range h.items {
